@@ -522,10 +522,36 @@ def _fold_sets(units):
     return flagged, folds
 
 
+def _exact_set(units, flagged, folds):
+    """Functions without a flag parameter that compare keys exactly whatever their caller wanted: they hand the constant true to a
+    flagged function, or call a function that does."""
+    exact = set()
+    changed = True
+    while changed:
+        changed = False
+        for u, fn in all_functions(units):
+            if fn.name in flagged or fn.name in folds or fn.name in exact:
+                continue
+            for c in fn.calls():
+                cn = callee_name(c)
+                if cn in exact:
+                    exact.add(fn.name)
+                    changed = True
+                    break
+                if cn in flagged:
+                    v = const_val(c['args'][flagged[cn]])
+                    if v is not None and v != 0:
+                        exact.add(fn.name)
+                        changed = True
+                        break
+    return exact
+
+
 def tab11(units, R, scope=None):
     """scope: optional set of function names to report on (default: all flagged functions and all
     *CaseSensitive public wrappers)."""
     flagged, folds = _fold_sets(units)
+    exact = _exact_set(units, flagged, folds)
     nflag = 0
     nwrap = 0
     for u, fn in all_functions(units):
@@ -540,6 +566,8 @@ def tab11(units, R, scope=None):
                 return e.get('k') == 'ref' and e.get('d') == pd
             false_region_complement = region_without_edges(
                 cfg, lambda n, l: n.kind == 'branch' and l is not None and l[0] == 'F' and is_flag(strip_casts(n.expr)))
+            true_region_complement = region_without_edges(
+                cfg, lambda n, l: n.kind == 'branch' and l is not None and l[0] == 'T' and is_flag(strip_casts(n.expr)))
             for c in fn.calls():
                 cn = callee_name(c)
                 if cn in flagged:
@@ -555,6 +583,14 @@ def tab11(units, R, scope=None):
                          'reachable only through the false edge of the flag test' if ok else
                          'reachable with %s == true: the case-sensitive variant folds case here' % FLAG,
                          key='fold:%s' % cn)
+                elif cn in exact and any('struct cJSON' in u.ty(a_.get('ty0', a_['ty']))['s'] for a_ in c['args'] if a_.get('ty') is not None):
+                    # the mirror image: a callee that compares keys exactly whatever it is told (it has no flag and hands `true` on)
+                    node = node_containing(cfg, c)
+                    ok = node.id not in true_region_complement
+                    R.ob('TAB11', fn, c, 'exact-matching callee %s only when the flag is true' % cn, ok,
+                         'reachable only through the true edge of the flag test' if ok else
+                         'reachable with %s == false: %s has no flag and compares keys exactly (it hands the constant true on), so the '
+                         'case-insensitive variant turns case-sensitive from here down' % (FLAG, cn), key='exact:%s' % cn)
         elif fn.external and fn.name.endswith('CaseSensitive'):
             nwrap += 1
             for c in fn.calls():
